@@ -96,14 +96,14 @@ type c20Posting struct {
 }
 
 type c20World struct {
-	n        int      // number of files
-	shape    int      // 0 single, 1 root->f1, 2 chain root->f1->f2, 3 star root->f1, root->f2
-	paths    []string // absolute paths
-	contents []string
-	posts    [][]c20Posting
-	payees   []string
+	n                    int      // number of files
+	shape                int      // 0 single, 1 root->f1, 2 chain root->f1->f2, 3 star root->f1, root->f2
+	paths                []string // absolute paths
+	contents             []string
+	posts                [][]c20Posting
+	payees               []string
 	extraFile, extraKind int
-	tags     []string
+	tags                 []string
 }
 
 func c20Build(sym, deep bool, maxShape int, varyMeta bool) *c20World {
@@ -249,14 +249,18 @@ func (w *c20World) serve(req int, workspace bool, secondRun bool) (*Server, prot
 		params.RootURI = protocol.DocumentURI("file://" + zzverif.Root())
 	}
 	_, _ = s.Initialize(ctx, params)
-	_ = s.Initialized(ctx, &protocol.InitializedParams{})
+	zzNotify(s, func() { _ = s.Initialized(ctx, &protocol.InitializedParams{}) })
 	uri := protocol.DocumentURI("file://" + w.paths[req])
-	_ = s.DidOpen(ctx, &protocol.DidOpenTextDocumentParams{TextDocument: protocol.TextDocumentItem{URI: uri, Text: w.contents[req]}})
+	zzNotify(s, func() {
+		_ = s.DidOpen(ctx, &protocol.DidOpenTextDocumentParams{TextDocument: protocol.TextDocumentItem{URI: uri, Text: w.contents[req]}})
+	})
 	c20Settle(s, uri, w.contents[req])
 	if secondRun {
-		_ = s.DidChange(ctx, &protocol.DidChangeTextDocumentParams{
-			TextDocument:   protocol.VersionedTextDocumentIdentifier{TextDocumentIdentifier: protocol.TextDocumentIdentifier{URI: uri}},
-			ContentChanges: []protocol.TextDocumentContentChangeEvent{{Text: w.contents[req]}},
+		zzNotify(s, func() {
+			_ = s.DidChange(ctx, &protocol.DidChangeTextDocumentParams{
+				TextDocument:   protocol.VersionedTextDocumentIdentifier{TextDocumentIdentifier: protocol.TextDocumentIdentifier{URI: uri}},
+				ContentChanges: []protocol.TextDocumentContentChangeEvent{{Text: w.contents[req]}},
+			})
 		})
 		c20Settle(s, uri, w.contents[req])
 	}
